@@ -11,6 +11,7 @@ pub mod c01;
 pub mod c02;
 pub mod c03;
 pub mod c04;
+pub mod c04_fetch;
 pub mod c05;
 pub mod topology;
 pub mod c06;
@@ -22,8 +23,10 @@ pub mod c09;
 pub mod c10;
 pub mod c10_pool;
 pub mod c11;
+pub mod c11_conn;
 pub mod c12;
 pub mod c13;
+pub mod c13_lbscript;
 pub mod c14;
 pub mod c14s;
 pub mod c15;
